@@ -130,6 +130,12 @@ func (ex *Exec) applyContract(st *State, ct *Contract, f *types.Func, recv Val, 
 				if v, ok := b[n]; ok {
 					return v, true
 				}
+				if n == "trace" {
+					if tv, ok := s.store[theTraceCell]; ok {
+						return tv, true
+					}
+					return SV{T: Var("trace0", SInt)}, true
+				}
 				// package-level names of the callee's package
 				if f.Pkg() != nil {
 					switch o := f.Pkg().Scope().Lookup(n).(type) {
@@ -189,6 +195,10 @@ func (ex *Exec) applyContract(st *State, ct *Contract, f *types.Func, recv Val, 
 	var viewWbs []wb
 	for _, m := range ct.Modifies {
 		root, fields := splitPath(m)
+		if root == "trace" && len(fields) == 0 {
+			st.store[theTraceCell] = SV{T: Fresh("trace", SInt)}
+			continue
+		}
 		rv, ok := bind[root]
 		if !ok {
 			panic(fmt.Errorf("modifies %s: unknown parameter in contract %s", m, ct.Key))
@@ -250,6 +260,8 @@ func (ex *Exec) applyContract(st *State, ct *Contract, f *types.Func, recv Val, 
 		}
 	}
 	postEnv := mkEnv(st, post)
+	postEnv.atCallSite = true
+	oldEnv.atCallSite = true
 	postEnv.old = oldEnv
 	postEnv.ok0 = pre.ok
 	if hasAPI {
@@ -714,6 +726,15 @@ func (ex *Exec) mergeStatesRet(c *Term, a, b *State, basePC int) *State {
 func (ex *Exec) callFuncValue(st *State, fv Val, call *ast.CallExpr) Val {
 	f, ok := fv.(*FuncV)
 	if !ok {
+		if sv, isSV := fv.(SV); isSV && sv.T.Sort == SInt {
+			// call of an unknown function value (parameter or captured variable): one trace event
+			ex.traceEvent(st, "call", sv.T)
+			sig, _ := ex.info.TypeOf(call.Fun).Underlying().(*types.Signature)
+			if sig == nil || sig.Results().Len() == 0 {
+				return SV{T: Zero}
+			}
+			return ex.freshResult(st, sig, "fv")
+		}
 		panic(unsupported("call of %T at %s", fv, ex.pos(call)))
 	}
 	ex.traceEvent(st, "call:"+f.Name)
